@@ -100,6 +100,9 @@ func (h264dp *h264Depacketizer) depacketizeStapa(packet *Packet) (err error) {
 	off := 1 // 跳过 STAP-A NAL HDR
 	// 循环读取被封装的NAL
 	for {
+		if off+2 > len(payload) { // no room for another NALU size
+			return
+		}
 		// nal长度
 		nalSize := ((uint16(payload[off])) << 8) | uint16(payload[off+1])
 		if nalSize < 1 {
@@ -107,6 +110,9 @@ func (h264dp *h264Depacketizer) depacketizeStapa(packet *Packet) (err error) {
 		}
 
 		off += 2
+		if off+int(nalSize) > len(payload) { // truncated: the announced unit is not all there
+			return
+		}
 		frame := &codec.Frame{
 			MediaType: codec.MediaTypeVideo,
 			Payload:   make([]byte, nalSize),
